@@ -623,6 +623,10 @@ func (cs *ConsensusState) addVote(vote *types.Vote, peerID p2p.ID) (bool, error)
 	// A precommit for the previous height?
 	// These come in while we wait timeoutCommit
 	if vote.Height+1 == cs.Height && vote.Type == kproto.PrecommitType {
+		if cs.LastCommit == nil {
+			// There is no previous height at the initial height.
+			return false, nil
+		}
 		if cs.Step != cstypes.RoundStepNewHeight {
 			// Late precommit at prior height is ignored
 			cs.Logger.Debug("Precommit vote came in after commit timeout and has been ignored", "vote", vote)
